@@ -103,6 +103,62 @@ func closedBefore(at ssa.Instruction) map[string]ssa.Instruction {
 					out[n] = in
 				}
 			}
+			return
+		}
+		// a helper that does the signalling (`if !t.stopLoops() { return }`): what it closes on every
+		// way to a return — for a helper with a boolean answer, to a return that does not answer false,
+		// provided `at` is reached only when the answer was true
+		h := c.Call.StaticCallee()
+		if h == nil || h.Pkg != fn.Pkg || len(h.Blocks) == 0 || h == fn {
+			return
+		}
+		if !(instrDominates(in, at) || mustPrecede(fn, []ssa.Instruction{in}, at)) {
+			return
+		}
+		boolAnswer := false
+		if res := h.Signature.Results(); res.Len() == 1 {
+			if bt, isB := res.At(0).Type().Underlying().(*types.Basic); isB && bt.Kind() == types.Bool {
+				boolAnswer = true
+			}
+		}
+		if boolAnswer {
+			okGuard := false
+			for _, g := range rawGuardsAt(at.Block()) {
+				if g.Cond == ssa.Value(c) && g.Positive {
+					okGuard = true
+				}
+			}
+			if !okGuard {
+				return
+			}
+		}
+		per := map[string]int{}
+		nRet := 0
+		for _, r := range returnsOf(h) {
+			if boolAnswer {
+				if v, isC := constBool(derefCell(resultOf(r, 0))); isC && !v {
+					continue
+				}
+			}
+			nRet++
+			eachInstr(h, func(hin ssa.Instruction) {
+				hc, isCall := hin.(*ssa.Call)
+				if !isCall {
+					return
+				}
+				if b, isB := hc.Call.Value.(*ssa.Builtin); isB && b.Name() == "close" && len(hc.Call.Args) == 1 {
+					if instrDominates(hin, r) || mustPrecede(h, []ssa.Instruction{hin}, r) {
+						if n := chanName(hc.Call.Args[0], nil, 0); n != "" {
+							per[n]++
+						}
+					}
+				}
+			})
+		}
+		for n, k := range per {
+			if nRet > 0 && k >= nRet {
+				out[n] = in
+			}
 		}
 	})
 	return out
